@@ -287,6 +287,11 @@ func (a *align) ShuffleSites(rate float64, roguerate float64, randroguefirst boo
 		io.ExitWithMessage(errors.New("shuffle rogue rate must be >=0 and <=1"))
 	}
 
+	if a.NbSequences() == 0 {
+		// nothing to shuffle (Length() is -1: rand.Perm would panic)
+		return []string{}
+	}
+
 	nbSitesToShuffle := int(rate * float64(a.Length()))
 	nbRogueSitesToShuffle := int(rate * (1.0 - rate) * (float64(a.Length())))
 	nbRogueSeqToShuffle := int(roguerate * float64(a.NbSequences()))
